@@ -328,6 +328,35 @@ def attrs_string(rng):
     return s
 
 
+def mutate_module_text(rng, text):
+    """token-level damage to a module text (delete / insert / replace / swap one to three tokens)"""
+    toks = re.findall(r'"(?:[^"\\]|\\.)*"|///[^\n]*|//[^\n]*|\w+|::|->|\S', text)
+    if not toks:
+        return text
+    for _ in range(rng.randint(1, 3)):
+        i = rng.randrange(len(toks))
+        k = rng.random()
+        pool = ["pub", "fn", "type", "enum", "impl", "extern", "use", "backend", "vftable", "prologue", "epilogue", "self", "mut", "const",
+                "{", "}", "(", ")", "[", "]", ",", ";", ":", "::", ": :", "->", "- >", "=", "#", "!", "*", "&", "<", ">", "_", "x", "T0",
+                "7", "-1", "0x10", '"s"', "1.5", "'c'", "unknown", "u32"]
+        if k < 0.3:
+            del toks[i]
+            if not toks:
+                return ""
+        elif k < 0.6:
+            toks.insert(i, rng.choice(pool))
+        elif k < 0.9:
+            toks[i] = rng.choice(pool)
+        elif len(toks) > 1:
+            j = rng.randrange(len(toks))
+            toks[i], toks[j] = toks[j], toks[i]
+    out = []
+    for t in toks:
+        out.append(t)
+        out.append("\n" if t.startswith("//") else " ")
+    return "".join(out)
+
+
 def runner(pid, prop, tier, seed, scratch, replay=None):
     rng = random.Random(seed)
     nmods, nsyn = (500, 3000) if tier == "quick" else (20000, 100000)
@@ -372,6 +401,14 @@ def runner(pid, prop, tier, seed, scratch, replay=None):
     out["evaluations"] += len(cases)
     # ---- B: Coq parser vs real parser on types and attribute lists
     items = [("type", type_string(rng)) for _ in range(nsyn // 2)] + [("attrs", attrs_string(rng)) for _ in range(nsyn // 2)]
+    # ---- C: the Coq *module* parser (SyntaxItems.v) vs the real parser on whole module texts: the generated
+    # modules in their randomised concrete syntax, and token-damaged versions of them
+    if not replay:
+        nmodsyn = 400 if tier == "quick" else 8000
+        texts = [c["files"]["m.pyxis"] for c in cases[:nmodsyn]]
+        for t in texts:
+            items.append(("module", t))
+            items.append(("module", mutate_module_text(rng, t)))
     if items:
         inp = os.path.join(scratch, "syn.in")
         outp = os.path.join(scratch, "syn.out")
@@ -386,7 +423,12 @@ def runner(pid, prop, tier, seed, scratch, replay=None):
             if toks == "lexerror":
                 dist["B:lexerror"] += 1
                 continue
-            mcases.append("(c18 %s %s)" % (k, " ".join(sx.show(t) for t in toks[1:])))
+            if k == "module":
+                real = r[1]
+                real_ast = sx.show(real[1]) if isinstance(real, list) and real[0] == "ok" else "none"
+                mcases.append("(c18m (toks %s) %s)" % (" ".join(sx.show(t) for t in toks[1:]), real_ast))
+            else:
+                mcases.append("(c18 %s %s)" % (k, " ".join(sx.show(t) for t in toks[1:])))
             idx.append(n_)
         mres = P.run_model(mcases, scratch) if mcases else []
         for n_, mr in zip(idx, mres):
@@ -398,6 +440,10 @@ def runner(pid, prop, tier, seed, scratch, replay=None):
             dist["B:%s:%s" % (k, "accept" if ok_r else "reject")] += 1
             if real == "panic":
                 out["failures"].append(dict(clause="C18.parser_panic", detail=s))
+            elif k == "module":
+                if ok_r != ok_m or (ok_r and model[1] != "same"):
+                    out["breaks"].append(dict(aspect="parser_model", detail="module `%s`: real parser %s, Coq module parser %s" % (
+                        s[:600], "accepts" if ok_r else "rejects", sx.show(model)[:100])))
             elif ok_r != ok_m or (ok_r and real[1] != model[1]):
                 out["breaks"].append(dict(aspect="parser_model", detail="%s `%s`: real parser %s, Coq parser %s" % (k, s, sx.show(real)[:200], sx.show(model)[:200])))
         out["evaluations"] += len(items)
